@@ -2,7 +2,7 @@
 pub mod cat;
 pub mod common;
 pub mod crash;
-#[cfg(feature = "format")]
+#[cfg(all(feature = "format", feature = "catalogue"))]
 pub mod gen;
 pub mod floatfam;
 pub mod fmtcat;
